@@ -964,6 +964,38 @@ def _job_extra(a):
                     if how == "ok" and ("late:" + kind) in l1.futs and l1.fstate("late:" + kind)[0] == "pending":
                         bad("late-request-pending-forever", "%s: %s() issued there is still pending after the "
                             "end of the session" % (label, kind))
+    # ---- (6) the router ABORTs while onChallenge is still pending - for every behaviour of the user's
+    # onLeave (returns, raises, pending) and every later outcome of onChallenge (returns a signature,
+    # fails): the handshake has ended once: no second onLeave, nothing sent after the router's ABORT
+    for leave_beh in ("return", "raise", "raise_before", "pending"):
+        for later in ("return", "raise"):
+            beh = {"onChallenge": "pending", "onLeave": leave_beh}
+            l1 = H.L1(authmethods=["ticket"], behave=lambda name, _b=beh: _b.get(name, "return"))
+            l1.open()
+            s, tr = l1.session, l1.transport
+            exc = l1.deliver(M.Challenge("ticket", {}))
+            l1.settle()
+            if "onChallenge" not in s.pending_cb:
+                raise RuntimeError("harness: onChallenge not pending")
+            n0 = len(tr.sent)
+            e2 = l1.deliver(M.Abort("wamp.error.not_authorized", "no"))
+            l1.settle()
+            l1.complete("onChallenge", later, "sig")
+            l1.settle()
+            if "onLeave" in s.pending_cb:
+                l1.complete("onLeave", "return")
+                l1.settle()
+            n += 1
+            cbs = [x[0] for x in s.rec]
+            sent = [type(m_).__name__ for m_ in tr.sent[n0:]]
+            label = "CHALLENGE (onChallenge pending), ABORT (onLeave %s), onChallenge %s" % (leave_beh, later)
+            if exc is not None or e2 is not None:
+                bad("escape-in-handshake", "%s: %r %r" % (label, exc, e2))
+            if cbs.count("onLeave") != 1:
+                bad("onleave-count-after-abort", "%s: onLeave called %d times (callbacks %s)" % (
+                    label, cbs.count("onLeave"), cbs))
+            if sent:
+                bad("sent-after-router-abort", "%s: sent %s after the router's ABORT" % (label, sent))
     return {"evals": n, "viol": viol, "stats": {"extra_execs": n, "nontrivial": n, "execs": n},
             "samples": [{"kind": "extra", "cases": n}]}
 
